@@ -172,6 +172,43 @@ func checkSemaLocks(c *Ctx, rp *packages.Package) {
 						why = "the loop around cond.Wait does not re-test shared state"
 					}
 					c.Check(ok, "R11.1", fmt.Sprintf("libruntime.%s Wait(&%s) re-tests state", name, op.key), op.call.Pos(), "loop re-reads the shared word before sleeping again", why)
+					// the decision to sleep is taken under the mutex: every path from taking the lock to the Wait
+					// passes a test that loads the shared word (otherwise a release between the test and the Wait is lost)
+					isRetestNode := func(nn ast.Node) bool {
+						if _, isExpr := nn.(ast.Expr); !isExpr {
+							if as, isAs := nn.(*ast.AssignStmt); !isAs || len(as.Rhs) != 1 {
+								return false
+							}
+						}
+						r := false
+						ast.Inspect(nn, func(y ast.Node) bool {
+							if call, isCall := y.(*ast.CallExpr); isCall {
+								if ff := calleeOf(info, call); ff != nil && (strings.HasPrefix(ff.Name(), "Load") || strings.HasPrefix(ff.Name(), "CompareAndSwap")) {
+									r = true
+								}
+							}
+							return true
+						})
+						return r
+					}
+					locks, unguarded := 0, false
+					for _, b2 := range g.G.Blocks {
+						for i2, nd2 := range b2.Nodes {
+							for _, lop := range lockOpsIn(info, nd2) {
+								if lop.kind != "lock" || lop.key != op.key {
+									continue
+								}
+								locks++
+								if _, reached := g.reach(cfgPos{b2, i2 + 1}, isRetestNode, func(x ast.Node) bool { return within(x, op.call) }, false, nil); reached {
+									unguarded = true
+								}
+							}
+						}
+					}
+					if locks > 0 {
+						c.Check(!unguarded, "R11.1", fmt.Sprintf("libruntime.%s Wait(&%s) is decided under the lock", name, op.key), op.call.Pos(), "every path from Lock to Wait loads the shared word",
+							"a path leads from "+op.key+".Lock() to cond.Wait without reading the shared word in between: the test that decided to sleep ran before the lock was taken, so a release that completes in between signals nobody and the waiter sleeps with the resource available (lost wake-up)")
+					}
 				}
 			}
 		}
@@ -724,6 +761,9 @@ func init() {
 	addMutant(Mutant{Prop: "C11", Name: "release-publishes-late", File: s, Old: "func semaRelease(addr *uint32) {\n\tlatomic.AddUint32(addr, 1)\n\tst := getSemaState(addr)\n\tst.mu.Lock()\n\tif st.waiters != 0 {\n\t\tst.cond.Signal()\n\t}\n\tst.mu.Unlock()\n", New: "func semaRelease(addr *uint32) {\n\tst := getSemaState(addr)\n\tst.mu.Lock()\n\tif st.waiters != 0 {\n\t\tst.cond.Signal()\n\t}\n\tst.mu.Unlock()\n\tlatomic.AddUint32(addr, 1)\n", Expect: "R11.6 libruntime.semaRelease"})
 	addMutant(Mutant{Prop: "C11", Name: "waiters-unlocked", File: s, Old: "\tst.mu.Lock()\n\tif st.waiters != 0 {\n\t\tst.cond.Signal()\n\t}\n\tst.mu.Unlock()\n", New: "\tif st.waiters != 0 {\n\t\tst.cond.Signal()\n\t}\n", Expect: "R11.1 libruntime.semaRelease"})
 	addMutant(Mutant{Prop: "C11", Name: "sema-return-locked", File: s, Old: "\t\t\tif v != 0 && latomic.CompareAndSwapUint32(addr, v, v-1) {\n\t\t\t\tst.mu.Unlock()\n\t\t\t\treturn\n\t\t\t}", New: "\t\t\tif v != 0 && latomic.CompareAndSwapUint32(addr, v, v-1) {\n\t\t\t\treturn\n\t\t\t}", Expect: "R11.1 libruntime.semaAcquire lock pairing"})
+	addMutant(Mutant{Prop: "C11", Name: "sema-sleep-decided-outside-lock", File: s,
+		Old: "\t\tfor {\n\t\t\tv = latomic.LoadUint32(addr)\n\t\t\tif v != 0 && latomic.CompareAndSwapUint32(addr, v, v-1) {\n\t\t\t\tst.mu.Unlock()\n\t\t\t\treturn\n\t\t\t}\n\t\t\tst.waiters++\n\t\t\tst.cond.Wait(&st.mu)\n\t\t\tst.waiters--\n\t\t}\n",
+		New: "\t\tst.waiters++\n\t\tst.cond.Wait(&st.mu)\n\t\tst.waiters--\n\t\tst.mu.Unlock()\n", Expect: "R11.1 libruntime.semaAcquire Wait(&st.mu) is decided under the lock"})
 	addMutant(Mutant{Prop: "C11", Name: "ticket-equality", File: s, Old: "for !notifyLess(t, latomic.LoadUint32(&l.notify)) {", New: "for latomic.LoadUint32(&l.notify) == t {", Expect: "R11.2 libruntime.sync_runtime_notifyListWait ticket comparison"})
 	addMutant(Mutant{Prop: "C11", Name: "notifyone-signal", File: s, Old: "\t\tst.cond.Broadcast()\n\t}\n\tst.mu.Unlock()\n}", New: "\t\tst.cond.Signal()\n\t}\n\tst.mu.Unlock()\n}", Expect: "R11.2 libruntime.sync_runtime_notifyListNotifyOne wakes"})
 	addMutant(Mutant{Prop: "C11", Name: "notifyless-unsigned", File: s, Old: "return int32(a-b) < 0", New: "return a < b", Expect: "R11.2 libruntime.notifyLess"})
